@@ -34,6 +34,7 @@ type ExploreStats struct {
 
 type explorer struct {
 	cfg   ExploreCfg
+	runFn func(Config) *Exec
 	body  func()
 	st    ExploreStats
 	sub   int // running index of level-1 subtrees, for sharding
@@ -43,15 +44,21 @@ type explorer struct {
 // Explore enumerates all executions of body whose choice sequences deviate
 // from the default (alternative 0) in at most Bound places.
 func Explore(cfg ExploreCfg, body func()) ExploreStats {
-	e := &explorer{cfg: cfg, body: body}
+	return ExploreFn(cfg, func(c Config) *Exec { return Run(c, body) })
+}
+
+// ExploreFn is Explore for harnesses that wrap Run themselves (run must
+// execute exactly one controlled execution with the given configuration).
+func ExploreFn(cfg ExploreCfg, run func(Config) *Exec) ExploreStats {
+	e := &explorer{cfg: cfg, runFn: run}
 	if cfg.NShards <= 0 {
 		e.cfg.NShards = 1
 	}
 	// determinism: the root execution twice, with full traces
 	base := cfg.Base
 	base.TraceOps = true
-	x1 := Run(base, body)
-	x2 := Run(base, body)
+	x1 := run(base)
+	x2 := run(base)
 	if x1.Diverged != "" || x2.Diverged != "" {
 		e.st.Diverged = x1.Diverged + x2.Diverged
 		return e.st
@@ -99,7 +106,7 @@ func (e *explorer) explore(prefix []int, dev int, depth int) {
 	}
 	c := e.cfg.Base
 	c.Choices = prefix
-	x := Run(c, e.body)
+	x := e.runFn(c)
 	if x.Diverged != "" {
 		e.st.Diverged = x.Diverged
 		e.stop = true
